@@ -391,6 +391,17 @@ func IPv6FindUpperProtocol(packet []byte) (nextHeader uint8, offset int, isFragm
 			return nextHeader, offset, isFragment, anyFragment, nil
 		}
 	}
+
+	// The walk limit is exhausted. If nextHeader is still an extension header the chain was not resolved, fail
+	// closed rather than report an extension header as the upper layer protocol. A terminal protocol gets the
+	// same bounds check it would have gotten inside the loop.
+	switch nextHeader {
+	case 0, 43, 44, 51, 60:
+		return nextHeader, offset, isFragment, anyFragment, ErrIPv6CouldNotFindPayload
+	}
+	if offset > len(packet) {
+		return nextHeader, offset, isFragment, anyFragment, ErrIPv6CouldNotFindPayload
+	}
 	return nextHeader, offset, isFragment, anyFragment, nil
 }
 
